@@ -112,6 +112,7 @@ def _case(draw, max_len, leg):
     if any(abs(m - d) < 0.9e-6 * max(abs(d), 1e-300) for d in fin):
         m = max(fin) * 2 + 1
     case['max_dist'] = m
+    case['mp'] = draw(st.integers(0, 9)) == 0
     return case
 
 
@@ -146,7 +147,30 @@ def _routines(case):
             A, ndim=nd, compact=True, **base, **k))))
         R.append(('c.ndim.distance_matrix', lambda **k: list(dtw_ndim.distance_matrix(
             A, ndim=nd, compact=True, use_c=True, parallel=False, **base, **k))))
+    if case.get('mp'):
+        # the multiprocessing routes of the distance-matrix routine (what the C engine falls back to without OpenMP), in a
+        # separate interpreter with a pool of 2
+        for use_c in (False, True):
+            R.append((('c' if use_c else 'py') + ('.ndim' if nd > 1 else '') + '.distance_matrix[mp]', _mp_route(case, use_c)))
     return R
+
+
+def _mp_route(case, use_c):
+    def fn(**k):
+        from .. import childclient
+        ch = childclient.get(nonumpy=False, key='c03-mp', env_extra={'OMP_WAIT_POLICY': 'passive'})
+        nd = case['ndim']
+        kw = {'compact': True, 'parallel': True, 'use_c': use_c, 'use_mp': True, 'window': case['window'],
+              'penalty': case['penalty'], 'psi': case['psi'], 'max_step': case['max_step'], 'inner_dist': case['inner']}
+        if nd > 1:
+            kw['ndim'] = nd
+        kw.update(k)
+        r = ch.call('dtw.distance_matrix' if nd == 1 else 'dtw_ndim.distance_matrix',
+                    [[case['s1'], case['s2'], case['s3']]], kw, {'0': 'list-ndarray'}, cpu_count=2)
+        if 'exc' in r:
+            raise RuntimeError(r['exc'])
+        return [float(v) for v in r['ok']]
+    return fn
 
 
 def _pairs(case):
